@@ -488,6 +488,7 @@ structure TryFile where
   pre : Bytes
   usePath : Bool
   suf : Bytes
+  splits : List Bytes   -- the matcher's `split_path` (the same list in every entry of one matcher)
 deriving Repr
 
 def TryFile.raw (t : TryFile) : Bytes := t.pre ++ (if t.usePath then str "{http.request.uri.path}" else []) ++ t.suf
@@ -495,9 +496,33 @@ def TryFile.raw (t : TryFile) : Bytes := t.pre ++ (if t.usePath then str "{http.
 def TryFile.expand (t : TryFile) (path : Bytes) : Bytes :=
   t.pre ++ (if t.usePath then globSafe path else []) ++ t.suf
 
-/-- `beforeSplit` (+ restored trailing slash) with an empty `split_path` -/
+def asciiLower (c : UInt8) : UInt8 := if 65 ≤ c ∧ c ≤ 90 then c + 32 else c
+
+/-- `strings.EqualFold(a, needle)` for an ASCII `needle` and `a` of the same byte length -/
+def eqFoldAscii (a needle : Bytes) : Bool := a.map asciiLower == needle.map asciiLower
+
+/-- `indexFold(haystack, needle)`: note the loop condition `i+nlen < len(haystack)` — a needle
+    at the very end of the haystack is not found -/
+def indexFold (needle : Bytes) : Bytes → Option Nat
+  | [] => none
+  | c :: cs =>
+    if needle.length < (c :: cs).length ∧ eqFoldAscii ((c :: cs).take needle.length) needle then some 0
+    else (indexFold needle cs).map (· + 1)
+
+/-- `firstSplit(path)`'s first result: the path up to and including the first usable split -/
+def firstSplit (p : Bytes) : List Bytes → Bytes
+  | [] => p
+  | sp :: rest =>
+    match indexFold sp p with
+    | some idx =>
+      if idx + sp.length ≠ p.length ∧ (p.drop (idx + sp.length)).head? ≠ some slash then firstSplit p rest
+      else p.take (idx + sp.length)
+    | none => firstSplit p rest
+
+/-- `beforeSplit` (+ restored trailing slash) -/
 def candidateRel (t : TryFile) (path : Bytes) : Bytes :=
-  if endsWithSlash t.raw then pathClean (t.expand path) ++ [slash] else pathClean (t.expand path)
+  if endsWithSlash t.raw then firstSplit (pathClean (t.expand path)) t.splits ++ [slash]
+  else firstSplit (pathClean (t.expand path)) t.splits
 
 /-- `fullPattern` -/
 def candidatePattern (rootC : Bytes) (t : TryFile) (path : Bytes) : Bytes :=
@@ -576,6 +601,60 @@ def tryLoop (fs : FS) (rootC path : Bytes) (fallback : Bool) : List TryFile → 
         | (.noMatch, tr2) => appendTrace (tr ++ tr2) (tryLoop fs rootC path fallback ts)
         | (r, tr2) => (r, tr ++ tr2)
     | (_, tr) => appendTrace tr (tryLoop fs rootC path fallback ts)
+
+/-! ### the scanning policies: largest_size, smallest_size, most_recently_modified -/
+
+inductive ScanPolicy where
+  | largest | smallest | recent
+deriving DecidableEq, Repr
+
+def digits : Nat → Nat → Nat
+  | 0, _ => 1
+  | fuel + 1, n => if n < 10 then 1 else 1 + digits fuel (n / 10)
+
+/-- `info.Size()` as the harness' filesystem reports it: the marker `FILE:<id>:END\n` of a file, 0
+    for a directory -/
+def nodeSize : Node → Nat
+  | .file id => 10 + digits id id
+  | _ => 0
+
+/-- `info.ModTime()` in seconds after the filesystem's epoch: the file id; 0 for a directory -/
+def nodeTime : Node → Nat
+  | .file id => id
+  | _ => 0
+
+/-- the loop body of the three policies; `best = (candidate, isDir, key)`:
+      largest   `err == nil && info.Size() > largestSize`                       (largestSize starts at 0)
+      smallest  `err == nil && (smallestSize == 0 || info.Size() < smallestSize)`
+      recent    `err == nil && (recentInfo == nil || info.ModTime().After(recentInfo.ModTime()))` -/
+def scanStep (pol : ScanPolicy) (best : Option (Bytes × Bool × Nat)) (c : Bytes) (n : Node) : Option (Bytes × Bool × Nat) :=
+  if n.isErr then best
+  else match pol, best with
+    | .largest, none => if nodeSize n > 0 then some (c, n.isDirB, nodeSize n) else none
+    | .largest, some (b, d, k) => if nodeSize n > k then some (c, n.isDirB, nodeSize n) else some (b, d, k)
+    | .smallest, none => some (c, n.isDirB, nodeSize n)
+    | .smallest, some (b, d, k) => if k = 0 ∨ nodeSize n < k then some (c, n.isDirB, nodeSize n) else some (b, d, k)
+    | .recent, none => some (c, n.isDirB, nodeTime n)
+    | .recent, some (b, d, k) => if nodeTime n > k then some (c, n.isDirB, nodeTime n) else some (b, d, k)
+
+def scanCandidates (fs : FS) (pol : ScanPolicy) : List Bytes → Option (Bytes × Bool × Nat) → Traced (Option (Bytes × Bool × Nat))
+  | [], best => (best, [])
+  | c :: cs, best => withTrace c (scanCandidates fs pol cs (scanStep pol best c (fs c)))
+
+def scanLoop (fs : FS) (rootC path : Bytes) (pol : ScanPolicy) : List TryFile → Option (Bytes × Bool × Nat) → Traced (Option (Bytes × Bool × Nat))
+  | [], best => (best, [])
+  | t :: ts, best =>
+    match fsGlob fs (globFuel (candidatePattern rootC t path)) (candidatePattern rootC t path) with
+    | (some cs, tr) =>
+      match scanCandidates fs pol cs best with
+      | (best', tr2) => appendTrace (tr ++ tr2) (scanLoop fs rootC path pol ts best')
+    | (none, tr) => appendTrace tr (scanLoop fs rootC path pol ts best)
+
+/-- `MatchFile.selectFile` with one of the scanning policies -/
+def matchFileScan (fs : FS) (root : Bytes) (tries : List TryFile) (pol : ScanPolicy) (path : Bytes) : Traced MatchRes :=
+  match scanLoop fs (pathClean (rootOrDot root)) path pol tries none with
+  | (some (c, d, _), tr) => (.matched c (trimPrefix (pathClean (rootOrDot root)) c) d, tr)
+  | (none, tr) => (.noMatch, tr)
 
 /-- `MatchFile.selectFile`: `root` after placeholder expansion (`""` → `"."`) -/
 def matchFile (fs : FS) (root : Bytes) (tries : List TryFile) (fallback : Bool) (path : Bytes) : Traced MatchRes :=
